@@ -330,9 +330,12 @@ pub fn run(prop: &Property, tier: Tier, seed: u64, shards_override: Option<usize
     if harness_panics > 0 {
         inconclusive_reasons.push(format!("{harness_panics} harness panics"));
     }
-    // a small share of inconclusive cases (timing on a loaded machine) is tolerated and reported
-    if inconclusive_cases * 20 > merged.evaluations.max(1) {
-        inconclusive_reasons.push(format!("{inconclusive_cases} of {} cases inconclusive (> 5 %)", merged.evaluations));
+    // inconclusive CASES (a timing case on a loaded machine, a peer that could not be set up) are
+    // reported, never folded into held or violated; they do not change the exit code as long as the
+    // run still observed what it must (distinct non-trivial cases, required observations above)
+    let mut soft_reasons: Vec<String> = Vec::new();
+    if inconclusive_cases > 0 {
+        soft_reasons.push(format!("{inconclusive_cases} of {} cases inconclusive (not judged; see coverage.inconclusive.cases)", merged.evaluations));
     }
 
     let wall = t_start.elapsed().as_secs_f64();
@@ -373,8 +376,8 @@ pub fn run(prop: &Property, tier: Tier, seed: u64, shards_override: Option<usize
     coverage.insert("observed_sets".into(), json!(merged.sets));
     coverage.insert("observed_bitset_population".into(), json!(bit_counts));
     coverage.insert("shards".into(), json!(nshards));
-    if !inconclusive_reasons.is_empty() || !merged.inconclusive.is_empty() {
-        coverage.insert("inconclusive".into(), json!({"run_level": inconclusive_reasons, "cases": merged.inconclusive}));
+    if !inconclusive_reasons.is_empty() || !merged.inconclusive.is_empty() || !soft_reasons.is_empty() {
+        coverage.insert("inconclusive".into(), json!({"run_level": inconclusive_reasons, "reported_only": soft_reasons, "cases": merged.inconclusive}));
     }
     if !known_hit.is_empty() {
         coverage.insert(
@@ -419,7 +422,11 @@ pub fn run(prop: &Property, tier: Tier, seed: u64, shards_override: Option<usize
     if !printed.is_empty() {
         return 1;
     }
+    for r in &soft_reasons {
+        println!("INCONCLUSIVE property={} {}", prop.id, r);
+    }
     if !inconclusive_reasons.is_empty() {
+        // the run did not observe what it must (or the harness itself failed): no verdict
         for r in &inconclusive_reasons {
             println!("INCONCLUSIVE property={} {}", prop.id, r);
         }
@@ -568,10 +575,15 @@ pub fn merge_extra(prop: &Property, label: &str, dir: &str, ok_exit_codes: &[i32
     }
     println!("{} pass {label}: {} cases in {} shards, {} monitor violations, {} sanitizer reports", prop.id, m.evaluations, shards, m.violations.len(), sanitizer_reports.len());
     if rc == 0 && !problems.is_empty() {
+        // a sanitizer shard that was too slow or hit an operation the interpreter lacks says
+        // nothing about the property: reported (here and in the evidence), exit code unchanged
+        // as long as the pass executed something; a pass that executed nothing is a harness error
         for p in &problems {
             println!("INCONCLUSIVE property={} pass {label}: {p}", prop.id);
         }
-        return 2;
+        if m.evaluations == 0 {
+            return 2;
+        }
     }
     rc
 }
